@@ -478,3 +478,15 @@ def crash_site(api, line, extra_defs=()):
         site = None
     _site_cache[k] = site
     return site
+
+
+def refine_crash_key(key, api, line, extra_defs=()):
+    """a crash key that only names an assertion of an inline header function (or a bare exit status) is replaced by the call
+    site found under gdb, so that a known finding names the library function that misbehaves"""
+    if key.startswith("assert:element.h") or key.startswith("exit") or key == "watchdog":
+        if key == "watchdog":
+            return key
+        site = crash_site(api, line, extra_defs)
+        if site:
+            return site
+    return key
